@@ -141,20 +141,20 @@ Definition masked_update (base : Q) (mask : Q -> bool) (value : Q -> Q) (xs : li
 (* ------------------------------------------------------------------ mixtures *)
 Definition qsum (l : list Q) : Q := fold_right Qplus 0 l.
 
+(* every pair below is (fraction_i, component value_i) *)
 (* calculate_mixture_heat_capacity / calculate_mixture_molar_mass(molar proportions):
-   sum (value_i * fraction_i); pairs are (component value, fraction) *)
-Definition mix_arith (cw : list (Q * Q)) : Q := qsum (map (fun p => fst p * snd p) cw).
+   sum (fraction_i * value_i) *)
+Definition mix_arith (wc : list (Q * Q)) : Q := qsum (map (fun p => fst p * snd p) wc).
 
 (* calculate_mixture_density / calculate_mixture_molar_mass(mass proportions):
    1 / sum (fraction_i / value_i) *)
-Definition mix_harmonic (cw : list (Q * Q)) : Q := 1 / qsum (map (fun p => snd p / fst p) cw).
+Definition mix_harmonic (wc : list (Q * Q)) : Q := 1 / qsum (map (fun p => fst p / snd p) wc).
 
-(* calculate_mixture_viscosity: sum (eta_i x_i sqrt M_i) / sum (x_i sqrt M_i); triples are
-   (eta_i, (x_i, sqrt M_i)) - the square root is an input (np.sqrt is an oracle; the tie feeds
-   perfect squares) *)
-Definition mix_viscosity (l : list (Q * (Q * Q))) : Q :=
-  qsum (map (fun t => fst t * fst (snd t) * snd (snd t)) l) /
-  qsum (map (fun t => fst (snd t) * snd (snd t)) l).
+(* calculate_mixture_viscosity: sum (eta_i x_i sqrt M_i) / sum (x_i sqrt M_i); pairs are
+   (x_i * sqrt M_i, eta_i) - the square root is an input (np.sqrt is an oracle; the tie feeds
+   perfect squares and multiplies in the same order as the code) *)
+Definition mix_weighted (ue : list (Q * Q)) : Q :=
+  qsum (map (fun p => fst p * snd p) ue) / qsum (map fst ue).
 
 (* calculate_mass_fraction_from_molar_fraction; pairs are (molar fraction, molar mass) *)
 Definition mass_from_molar (xm : list (Q * Q)) : list Q :=
